@@ -12,6 +12,7 @@ META = {
 
 def obligations(tier: str) -> list[Ob]:
     obs = skeleton_obs("C10", "model", ["tri_", "reqd_"], tier, label="tristate")
+    obs += skeleton_obs("C10", "model", ["tri_", "reqd_"], tier, names=["enums"], config={"literal_enums": True}, label="tristate-literal-enums")
     obs += skeleton_obs("C10", "endpoint", ["req_"], tier, names=["params"], label="unset-not-sent")
     from ..e2 import harness_ob
 
